@@ -1,4 +1,11 @@
 #ifndef VP_STUB_ERRNO_H
 #define VP_STUB_ERRNO_H
 #define EINVAL 22
+#define ERANGE 34
+#ifdef VP_ILP32
+extern int errno;                      /* freestanding 32-bit build: defined in mon/platform_ilp32.c */
+#else
+extern int* __errno_location(void);    /* big-endian emulation: the object is linked against the native C library */
+#define errno (*__errno_location())
+#endif
 #endif
